@@ -201,6 +201,7 @@ func init() {
 		th.joiner = true
 		th.blocked = func() bool { return true }
 		th.desc = "Join"
+		in.visit(th, "join")
 		in.reschedule(th, "join", token.NoPos)
 		th.blocked = nil
 		th.joiner = false
@@ -314,9 +315,7 @@ func init() {
 	reg("(time.Time).String", func(in *Interp, fr *frame, args []value) value { return in.mkStr("«time»") })
 	reg("(time.Duration).String", func(in *Interp, fr *frame, args []value) value { return in.mkStr("«duration»") })
 	reg("time.Sleep", func(in *Interp, fr *frame, args []value) value {
-		if in.liveThreads() > 1 {
-			in.syncOp(fr, "sleep", token.NoPos, nil)
-		}
+		in.syncOp(fr, "sleep", fr.callpos, nil)
 		in.ghostInc("sleeps")
 		return nil
 	})
@@ -335,18 +334,14 @@ func init() {
 			panic(runtimePanic{"fatal error: sync: unlock of unlocked mutex"})
 		}
 		m.locked = false
-		if in.liveThreads() > 1 {
-			in.syncOp(fr, "Unlock", fr.callpos, nil)
-		}
+		in.syncOp(fr, "Unlock", fr.callpos, nil)
 		return nil
 	}
 	reg("(*sync.Mutex).Lock", lock)
 	reg("(*sync.Mutex).Unlock", unlock)
 	reg("(*sync.Mutex).TryLock", func(in *Interp, fr *frame, args []value) value {
 		m := in.mutex(args[0].(*value))
-		if in.liveThreads() > 1 {
-			in.syncOp(fr, "TryLock", fr.callpos, nil)
-		}
+		in.syncOp(fr, "TryLock", fr.callpos, nil)
 		if m.locked || m.readers > 0 {
 			return in.tt.False
 		}
@@ -367,9 +362,7 @@ func init() {
 			panic(runtimePanic{"fatal error: sync: RUnlock of unlocked RWMutex"})
 		}
 		m.readers--
-		if in.liveThreads() > 1 {
-			in.syncOp(fr, "RUnlock", fr.callpos, nil)
-		}
+		in.syncOp(fr, "RUnlock", fr.callpos, nil)
 		return nil
 	})
 	reg("(*sync.Once).Do", func(in *Interp, fr *frame, args []value) value {
@@ -412,9 +405,7 @@ func init() {
 		if st.n < 0 {
 			panic(runtimePanic{"sync: negative WaitGroup counter"})
 		}
-		if in.liveThreads() > 1 {
-			in.syncOp(fr, "wg.Done", fr.callpos, nil)
-		}
+		in.syncOp(fr, "wg.Done", fr.callpos, nil)
 		return nil
 	})
 	reg("(*sync.WaitGroup).Wait", func(in *Interp, fr *frame, args []value) value {
@@ -451,9 +442,7 @@ func init() {
 
 	// ------------------------------------------------------------ sync/atomic
 	atomicPre := func(in *Interp, fr *frame) {
-		if in.liveThreads() > 1 {
-			in.syncOp(fr, "atomic", fr.callpos, nil)
-		}
+		in.syncOp(fr, "atomic", fr.callpos, nil)
 	}
 	for _, ty := range []string{"Int32", "Int64", "Uint32", "Uint64", "Uintptr"} {
 		ty := ty
